@@ -1,5 +1,6 @@
 // Model protocol client (from doc/proto_00000502.txt) and its op interface.
 #include "model.h"
+#include "hostgen.h"
 #include <algorithm>
 
 static std::string dotify(const std::string &s, size_t cut = 57)
@@ -337,6 +338,21 @@ void Models::do_op(const J &op)
 			else args = "aAbBcC";
 		}
 		m->do_simple(act[0], args, sp);
+	}
+	else if (act == "hostile") {
+		// an insider: logged in with the right password, then sends generated hostile commands from its own address, mostly
+		// with its own user id (so that they pass the server's address check)
+		Rng hr((uint64_t)op.geti("key"), "insider");
+		if (m->raw && hr.chance(0.5)) {
+			Bytes f = hostile_raw_frame(hr);
+			if (f.size() >= 4 && hr.chance(0.8)) f[3] = (uint8_t)((f[3] & 0xf0) | (m->userid & 15));
+			w->S.send_from(m->sock, [&]() { Addr a = w->S.hosts[w->srv_host].ip4; a.port = 53; return a; }(), f);
+		} else {
+			Bytes q = hostile_query_command(hr, m->domain, 16, m->logged_in ? m->userid : -1);
+			Addr a = w->S.hosts[w->srv_host].ip4; a.port = 53;
+			w->S.send_from(m->sock, a, q);
+		}
+		w->probes["mc.insider_hostile"]++;
 	}
 	else if (act == "name") m->send_name(op.gets("data"), (uint16_t)op.geti("qtype", 0), sp, op.has("id") ? (int)op.geti("id") : -1);
 	else if (act == "rawlogin") m->do_rawlogin(op.gets("mode", "good"), sp);
